@@ -11,7 +11,7 @@ MODES = ['debug', 'release']
 IMPORTS = 'Require Import V.Base.MachineInt V.Model.Counters V.Oracle.C15Oracle.'
 RULE = ('histories of allocate_opt / free / set_counter_value / clock-set / dump on a CountersManager over fresh buffers of nm x 512 and '
         'nv x 128 bytes (nm, nv independent). quick: every word of length <= 3 over a 10-letter alphabet {alloc plain, alloc with key, '
-        'alloc via key callback, alloc label 381, alloc key 113, free lowest / highest live, set value, clock to deadline-1, clock to '
+        'alloc via a key callback that takes a reader snapshot (for_each ids + counter_state of the id being allocated) while it runs, alloc label 381, alloc key 113, free lowest / highest live, set value, clock to deadline-1, clock to '
         'deadline} on 4 slot-count pairs from 1..3 (thorough: length <= 4 on 8 pairs from 1..4), each ending in a dump; every word of length 4..5 over {alloc, free lowest, late write on the freed id, clock to deadline} on (1,1) and (2,2); plus 72 random histories '
         'of 10..200 operations on 1..16 slots (cool-down 0, 1, 10, 1000, 2^62; labels of 0, 1, 379..381 bytes or with a NUL, 15 % multi-byte UTF-8 labels (2-, 3-, 4-byte characters) of 376..384 bytes or 380 characters; keys of '
         '0, 8, 111..113 bytes by slice, by callback or both; values 0, 1, 2^63, 2^64-1, written through the manager or an UnsafeBufferPosition, one third of them late writes on freed ids during the cool-down; clock moved to just before / at / after a pending '
@@ -24,7 +24,7 @@ ASSUMPTIONS = [
     'buffer capacities are exact multiples of the record lengths (nm x 512, nv x 128) and nm*512+512, nv*128+128 fit i32',
     'free is applied to live ids only, value writes to live ids or to freed ids not handed out again (API contract, boolean predicate contract_step); '
     'clock readings t and the cool-down satisfy 0 <= t, t + timeout < 2^63 (the source compares them as i64)',
-    'a key callback writes at most MAX_KEY_LENGTH bytes through the view it is given',
+    'a key callback writes at most MAX_KEY_LENGTH bytes through the view it is given; the reader snapshot is taken from inside the key callback (the one point where allocate_opt hands control to the caller), on the allocating thread',
     'single-threaded use of the manager (the reader is used from the same thread)',
 ]
 TRUSTED = [
@@ -103,8 +103,8 @@ def letter_op(sim, ch):
         return op_alloc(1, 'n', 0, 0, 0, 0, 3, len(sim.live) + sim.hwm, -1)
     if ch == 'k':
         return op_alloc(2, 'o', 8, 5 + sim.hwm, 0, 0, 1, 9, -1)
-    if ch == 'c':
-        return op_alloc(-3, 'f', 9, 2, 0, 0, 0, 0, -1)
+    if ch == 'c':       # key callback that also looks at the counters through a reader while it runs
+        return op_alloc(-3, 's', 9, 2, 0, 0, 0, 0, -1)
     if ch == 'L':
         return op_alloc(4, 'n', 0, 0, 0, 0, 381, 1, -1)
     if ch == 'K':
@@ -150,7 +150,7 @@ def random_history(rng, nm, nv, timeout, length, dump_every):
         o = None
         if r < 0.40:
             llen = rng.choice([0, 1, 2, 3, 5, 17, rng.randrange(0, 40)]) if rng.random() < 0.9 else rng.choice([379, 380, rng.randrange(0, 381)])
-            kind = rng.choice(['n', 'n', 'o', 'o', 'f'])
+            kind = rng.choice(['n', 'n', 'o', 'o', 'f', 's', 's'])
             klen = rng.choice([0, 1, 7, 8, 9, 16]) if rng.random() < 0.9 else rng.choice([111, 112, rng.randrange(0, 113)])
             w = 1
             if rng.random() < 0.15:     # multi-byte UTF-8, mostly just below / at the 380-BYTE limit
@@ -273,6 +273,8 @@ def op_coq(o):
         _, t, kind, klen, kseed, klen2, kseed2, llen, lseed, nul = o[:10]
         w = o[10] if len(o) > 10 else 1
         label = 'mk_label_u %s %s %s' % (z(llen), z(lseed), z(w)) if w > 1 else 'mk_label %s %s %s' % (z(llen), z(lseed), z(nul))
+        if kind == 's':
+            return 'AllocSnap %s (mk_key %s %s) (%s)' % (z(t), z(klen), z(kseed), label)
         return 'Alloc %s %s (%s)' % (z(t), _key(kind, klen, kseed, klen2, kseed2), label)
     if o[0] == 'F':
         return 'Free %s' % z(o[1])
